@@ -125,6 +125,13 @@ def handle (j : Json) : R Json := do
               ("residual", jArr (o.residual.map jS)),
               ("hybridUsed", jBool o.hybridUsed)])
 
+/-- A history: the stage is a function of the CURRENT memory / graph contents, so each call of a
+multi-turn history is the model on that call's contents (`{"calls": [case, …]}`). -/
+def handleHist (j : Json) : R Json := do
+  let cs ← fldArr j "calls"
+  let outs ← cs.toList.mapM handle
+  pure (jArr outs)
+
 /-- `_search_with_episodes` alone (index level, incl. the quarter filter). -/
 def handleSearch (j : Json) : R Json := do
   let cfg ← parseCfg (← fld j "cfg")
@@ -172,7 +179,7 @@ def handleSearchMon (j : Json) : R Json := do
     && monTier cfg [tier] eps hits && monSearch cfg tier eps hits))
 
 def routes : List (String × (Json → R Json)) :=
-  [("t2", handle), ("t2.search", handleSearch), ("t2.mon", handleMon),
+  [("t2", handle), ("t2.hist", handleHist), ("t2.search", handleSearch), ("t2.mon", handleMon),
    ("t2.searchmon", handleSearchMon)]
 
 end Driver.HT2
